@@ -5,7 +5,7 @@
 package client
 
 // Every function under contract in this package also serves the properties that depend on the whole package.
-//@ package-props C01 C18
+//@ package-props C01 C18 C12
 
 // ---- ReconnectClient -----------------------------------------------------------
 // subscribeDone is created by Subscribe's initialisation and closed when Subscribe
@@ -97,6 +97,8 @@ package client
 //@ monitor BaseClient.mu protects closed, clientImpl
 // recvSinceCheck: messages received since the close flag was last read.
 //@ ghost recvSinceCheck int
+// sawClosed: the close latch as run read it last (under the read lock).
+//@ ghost sawClosed bool
 // lastImplErr: what the implementation's latest Recv returned; implCloses: how often it was closed.
 //@ ghost lastImplErr error
 //@ ghost implCloses int
@@ -115,13 +117,37 @@ package client
 //@   props C18 C12
 //@   locks c
 //@   requires c != nil && impl != nil && recvSinceCheck == 0
-//@   modifies ghost recvSinceCheck, ghost lastImplErr, ghost implCloses
+//@   modifies ghost recvSinceCheck, ghost lastImplErr, ghost implCloses, ghost sawClosed
 //@   invariant 0: recvSinceCheck == 0 && implCloses == old(implCloses)
 //@   ensures [a-real-error-closes-the-implementation-and-is-returned C18] res0 != nil ==> res0 == lastImplErr && implCloses == old(implCloses) + 1
-//@   ensures [stop-markers-and-close-end-it-cleanly C18] res0 == nil ==> implCloses == old(implCloses) && (lastImplErr == io.EOF || lastImplErr == ErrStopReading || (lastImplErr == nil && closed))
+//@   ensures [stop-markers-and-close-end-it-cleanly C18] res0 == nil ==> implCloses == old(implCloses) && (lastImplErr == io.EOF || lastImplErr == ErrStopReading || (lastImplErr == nil && sawClosed))
 //@   ensures [stop-markers-are-not-errors C18] lastImplErr == io.EOF || lastImplErr == ErrStopReading ==> res0 == nil
 //@   set at call (*sync.RWMutex).RUnlock#0: recvSinceCheck := 0
+//@   set at call (*sync.RWMutex).RUnlock#0: sawClosed := c.closed
 //@   assert at call (*sync.RWMutex).RLock#0: [flag-read-after-each-message C18] recvSinceCheck == 1
+
+// Subscribe connects first (getFirst races the registered implementations; not verified), then - in ONE critical
+// section - closes the previous implementation, installs the new one and clears the close latch, and only then
+// starts receiving from exactly that implementation. (A Close that runs after that critical section therefore
+// finds the new implementation installed and its latch is seen by run after at most one more message.)
+//@ func getFirst
+//@   trusted
+//@   ensures res1 == nil ==> res0 != nil
+//@   note body not verified: it races the registered implementations in goroutines and returns the first that connects
+//@ func (Query).Validate
+//@   trusted
+//@   note body not verified (query validation: addresses, credentials, type); it only reads the query
+//@ func RegisteredImpls
+//@   trusted
+//@   note body not verified (reads the implementation registry under its own mutex)
+//@ func (*BaseClient).Subscribe
+//@   props C18 C12
+//@   locks c
+//@   requires c != nil && ctx != nil && recvSinceCheck == 0
+//@   modifies *
+//@   assert at call (*sync.RWMutex).Unlock#0: [installed-and-close-latch-cleared-in-one-critical-section C18] c.clientImpl == impl && impl != nil && !c.closed
+//@   assert at call (*BaseClient).run#0: [receives-from-the-implementation-it-installed C18] arg0 == c && arg1 == impl
+//@   ensures [one-critical-section C18] hits("call (*sync.RWMutex).Lock#0") <= old(hits("call (*sync.RWMutex).Lock#0")) + 1
 
 //@ func (*BaseClient).Close
 //@   props C18 C12
